@@ -191,6 +191,12 @@ def run_job(spec):
             for ob in obs:
                 f = as_formula(ob.formula)
                 res['labels'].add(ob.sig)
+                if ob.label.startswith('ENGINE:'):
+                    # engine validation against the implementation (e.g. native differential replay of this path)
+                    if ob.formula is True: res['witness_ok'] += 1
+                    elif ob.formula is None: res['witness_skipped'] = res.get('witness_skipped', 0) + 1
+                    else: res['witness_bad'].append(dict(why=ob.label, detail=jsonable(ob.info)))
+                    continue
                 if ob.label.startswith('OUTSIDE-BOUND'):
                     res['outside_bound'] = res.get('outside_bound', 0) + 1
                     continue
